@@ -91,8 +91,24 @@ func c08(c *wk.Ctx) {
 	idx := 0
 	// ---- A. writing: wire bytes equal announcement + reference frames
 	lens := c08lens(c)
+	// written lengths: every multiple of 4 up to 4 KiB (16 KiB thorough) and the neighbourhood of every power
+	// of two and of the usual segment sizes — a write path that splits or batches by size has its edge somewhere there
+	wlens := append([]int{}, lens...)
+	for n := 524; n <= c.Pick(4096, 16384); n += 4 {
+		wlens = append(wlens, n)
+	}
+	for k := 12; k <= 20; k++ {
+		for d := -12; d <= 12; d += 4 {
+			wlens = append(wlens, 1<<k+d)
+		}
+	}
+	for _, base := range []int{1448, 1460, 1500, 2896, 2920, 8940, 9000, 65508, 65532, 65540} {
+		for d := -8; d <= 8; d += 4 {
+			wlens = append(wlens, (base+d)/4*4)
+		}
+	}
 	for mi, md := range c08Modes {
-		for _, n := range lens {
+		for _, n := range wlens {
 			if c.Mine(idx) {
 				r := c.Rand(idx)
 				c.Begin(idx, fmt.Sprintf("write %s len=%d", md.name, n))
